@@ -1078,6 +1078,13 @@ func (e *Extractor) ExtractInnerForReverseSearch(re *syntax.Regexp) *InnerLitera
 		if literals.IsEmpty() {
 			continue
 		}
+		// The AST is split AT re.Sub[i], so the literal must be the first thing re.Sub[i]
+		// matches. extractInner also digs literals out of the middle of a group, e.g. "@"
+		// from `(\d+@)`: the prefix `[a-z]+` would then be verified right before "@"
+		// instead of before the digits.
+		if !e.leadsWithLiteral(re.Sub[i]) {
+			continue
+		}
 
 		// Check if there are wildcards/repetitions before this position
 		hasWildcardBefore := false
@@ -1110,6 +1117,27 @@ func (e *Extractor) ExtractInnerForReverseSearch(re *syntax.Regexp) *InnerLitera
 
 	// No suitable inner literal found
 	return nil
+}
+
+// leadsWithLiteral reports whether the literals returned by extractInner(re) are taken
+// from the very beginning of re (and not from behind a leading repetition or wildcard).
+func (e *Extractor) leadsWithLiteral(re *syntax.Regexp) bool {
+	switch re.Op {
+	case syntax.OpLiteral:
+		return true
+	case syntax.OpCharClass:
+		return !e.expandCharClass(re).IsEmpty()
+	case syntax.OpCapture, syntax.OpConcat:
+		return len(re.Sub) > 0 && e.leadsWithLiteral(re.Sub[0])
+	case syntax.OpAlternate:
+		for _, sub := range re.Sub {
+			if !e.leadsWithLiteral(sub) {
+				return false
+			}
+		}
+		return len(re.Sub) > 0
+	}
+	return false
 }
 
 // buildPrefixAST creates a new Regexp that matches only the prefix portion.
